@@ -1,5 +1,5 @@
 SPECIFICATION Spec
-CONSTANT Dev = "digitize_strict"
+CONSTANT Dev = "lpnorm_ignores_layout"
 INVARIANT FusionSound
 INVARIANT LpNormSound
 INVARIANT DigitizeLaws
